@@ -25,6 +25,13 @@ import (
 var aliens = []string{`"str"`, `7`, `-1`, `18446744073709551616`, `1.5`, `inf`, `nan`, `true`, `1979-05-27`, `07:32:00`,
 	`1979-05-27T07:32:00Z`, `1979-05-27T07:32:00`, `[]`, `[1]`, `["a"]`, `{}`, `{a=1}`, `""`, `0x10`, `'lit'`, `[[1]]`, `{type="cc"}`}
 
+func init() {
+	// near-valid strings (note-shaped, key-shaped, action-shaped, offset-shaped): every string-valued field gets them too
+	for _, v := range []string{"h1", "e#2", "b#0", "c9", "g#8", "b-3", "c-0", "C#-2", "z", "c", "#1", "60,16", "60,", ",1", "c3,1,2", "60,-1", "999", "-1", "128", "KEY_", "KEY_NOPE", "xZZ", "x", "octave_sideways", "off ", "Piano", "\u0000"} {
+		aliens = append(aliens, "\""+v+"\"")
+	}
+}
+
 var kvRe = regexp.MustCompile(`^(\s*)([A-Za-z0-9_\-"]+)(\s*=\s*)(.*?)(\s*#.*)?$`)
 
 const synthetic = `collision_mode = "interrupt"
